@@ -108,6 +108,19 @@ func (w *World) verifyCone(roots []*Contract, lemmas []*Lemma, sv *Solver, verbo
 			}
 			smt := j.ix.smtText(j.o, false)
 			r := sv.solveVariants4(j.ix.smtTextLight(j.o, 2), j.ix.smtTextLight(j.o, 1), j.ix.smtText(j.o, true), smt, j.o.Canary)
+			if r.Status == "timeout" && !j.o.Canary && sv.retryFactor > 1 && !sv.noRetry[j.o.Key] {
+				// second chance with a longer limit: a goal that ran out of time under load is not reported before it had it
+				// (keys of recorded known findings are exempt - they are expected to fail and would only cost time)
+				long := *sv
+				long.timeout = sv.timeout * time.Duration(sv.retryFactor)
+				long.noCache = true
+				r2 := long.solve(j.ix.smtText(j.o, true), false)
+				if r2.Status == "unsat" {
+					r2.Solver += "(retry)"
+					r2.Millis += r.Millis
+					r = r2
+				}
+			}
 			rr.Results[i] = OblResult{O: j.o, R: r, SMT: smt}
 		}(i)
 	}
